@@ -390,16 +390,19 @@ def nontrivial(case, o):
     return t.get("n", 0) >= 2 or t.get("muts", 0) >= 1
 
 
-LEVEL_TEXT = ("Machine-checked proof (Coq 8.16): for every HTTP/2 header list accepted by the model of pkawa::handle_header, "
-              "the bytes of the model of kawa's H1 serialiser are read by a strict RFC 9112 reference reader as exactly the "
-              "header block sozu understood (accepted names are tokens, accepted values contain no CR/LF/NUL, so no "
-              "client byte can end a field line); Content-Length/DATA ledger never completes a stream whose DATA total "
-              "differs; for the H1 frontend the same round-trip conditional on kawa's output being well-formed. The "
-              "model is tied to /repo on every run by a byte-class/shape translator and by a differential run of the real "
-              "handle_header + kawa serialiser and of the real kawa H1 parser against the extracted model and strict reader.")
-LEVEL_NOTE = ("H2->H1 full for the header block and request line; H1->H1 partial: kawa is an oracle checked differentially "
-              "(open findings: a request without Content-Length/Transfer-Encoding is treated as close-delimited and "
-              "pipelined bytes are forwarded as its body; 'Transfer-Encoding: xchunked', signed Content-Length and an "
-              "empty field name are forwarded verbatim). HPACK and DATA-frame plumbing are outside the model.")
+LEVEL_TEXT = ("Machine-checked proof (Coq 8.16): for EVERY HTTP/2 header list accepted by the model of pkawa::handle_header, "
+              "the strict RFC 9112 reference reader reads in the bytes of the model of kawa's H1 serialiser exactly one request "
+              "head - the method, target, host and field list sozu understood - and delimits the body by the framing sozu chose "
+              "(h2_to_h1_unambiguous: request line, every field, the Cookie line, Host, Content-Length/chunked composed); "
+              "sozu's own HTTP/1 acceptance (h1_guard, mirror of editor.rs::h1_framing_violation) only forwards token names, "
+              "one exact 'chunked', 1*DIGIT lengths (h1_acceptance_well_formed) and what it forwards is read back field by "
+              "field; the Content-Length/DATA ledger never completes a stream whose DATA total differs. Tied to /repo on every "
+              "run by shape/byte-class translators, by a differential run of the real handle_header + kawa serialiser and of "
+              "the real kawa parser + HttpContext against the extracted model and strict reader, and by a black-box tier (real "
+              "worker, recording backend with a strict reader, smuggling grammar at several segmentations).")
+LEVEL_NOTE = ("H2->H1 full on the model; H1->H1: names/framing fields are sozu's own checks (theorem), the value alphabet and "
+              "chunk framing are kawa's (oracle, checked differentially in-process and black-box). Six defects found and fixed "
+              "in /repo (69cd28f e4218a3 dfea9cc 39e8c05 8be8458 8e756bb). The Content-Length/DATA ledger of h2.rs is tied "
+              "by a source translator only; the black-box tier drives the HTTP/1 frontend only (no TLS/H2 client).")
 TECHNIQUE = "Rocq/Coq proof over an executable Gallina model + differential correspondence (extracted OCaml vs real crate)"
 CLAIMED = True
